@@ -5,6 +5,7 @@ import (
 	"fmt"
 	"sort"
 	"sync"
+	"sync/atomic"
 	"time"
 
 	"verifsim/shim/simnet"
@@ -55,6 +56,10 @@ type Net struct {
 	// OnDial, when set, sees every connection attempt before it is answered (engines use it to
 	// stop a run whose client dials without end).
 	OnDial func(proto, addr string)
+	// Down, while set, is the behaviour of EVERY endpoint for connections dialled from now on: a
+	// network outage (partition between the client and all its servers) that an engine starts and
+	// heals from its workload.  Connections dialled before keep the behaviour they were dialled with.
+	Down atomic.Pointer[Behaviour]
 }
 
 func NewNet() *Net {
@@ -98,6 +103,9 @@ func (n *Net) Events() []NetEvent {
 }
 
 func (n *Net) beh(proto, addr string) Behaviour {
+	if d := n.Down.Load(); d != nil {
+		return *d
+	}
 	if b, ok := n.Beh[proto+"!"+addr]; ok {
 		return b
 	}
@@ -160,6 +168,9 @@ type session struct {
 }
 
 func (s *session) OnClose() { s.n.logEv(NetEvent{Proto: s.proto, Addr: s.addr, What: "close"}) }
+
+// ReqID identifies the bytes of one request (one transmission or retransmission of it).
+func ReqID(b []byte) string { return reqID(b) }
 
 func reqID(b []byte) string {
 	var h uint64 = 1469598103934665603
